@@ -1,0 +1,16 @@
+//go:build verif
+
+// Contracts for package protoio, checked by /verif/govc (comment-only; see /verif/DESIGN.md).
+package protoio
+
+// ---------------------------------------------------------------- C18/C20: the length-delimited frame reader
+// Whatever length prefix the peer sends (any uint64, including values that are negative as an int), the
+// reader never panics and never allocates more than its configured maximum: the prefix is rejected
+// unless 0 <= length <= maxSize.
+//@ func (r *varintReader) ReadMsg(msg proto.Message) (err error)
+//@   for C18 C20
+//@   safe
+//@   requires r != nil && r.r != nil && 0 <= r.maxSize && r.maxSize <= 281474976710656
+//@   modifies *
+//@   allocbound r.maxSize
+//@   atcall ReadFull requires [readsExactlyTheAnnouncedLength] 0 <= len(buf) && len(buf) <= outer(r).maxSize
